@@ -285,6 +285,9 @@ func C18(tier string) int {
 			run.Sample("scripted-case", 3, c)
 		}
 	})
+	// the connection ends or falls silent in the middle of an answer (checks/c17.go)
+	run.Rule += clientFaultRule
+	clientFaultFamily(run, "C18")
 	// histories of client calls (explicit-state search, checks/clientbfs.go)
 	run.Rule += clientSearchRule
 	clientSearch(run, "C18", 0)
